@@ -69,7 +69,7 @@ fn run_cmd(dir: &PathBuf, args: &[String]) -> Result<(String, Option<i32>), Stri
         match child.try_wait() {
             Ok(Some(_)) => break,
             Ok(None) => {
-                if start.elapsed() > Duration::from_secs(60) {
+                if start.elapsed() > Duration::from_secs(150) {
                     let _ = child.kill();
                     let _ = child.wait();
                     return Err("watchdog".into());
@@ -99,6 +99,8 @@ fn run_c21_plan(plan: &c21::Plan) -> Result<ChildResult, String> {
     let mut model = c21::Model::default();
     let mut res = ChildResult::default();
     let mut reopen_no = 0u64;
+    // the operation that was in flight when the previous incarnation was ended by an injected crash
+    let mut pending: Option<c21::Op> = None;
     for (i, inc) in plan.incs.iter().enumerate() {
         let (out, code) = match run_cmd(&dir, &["child21".into(), "plan.json".into(), i.to_string()]) {
             Ok(x) => x,
@@ -107,8 +109,16 @@ fn run_c21_plan(plan: &c21::Plan) -> Result<ChildResult, String> {
                 return Err(e);
             }
         };
+        let crash_line: Option<String> = out.lines().find(|l| l.starts_with("CRASH ")).map(|l| l.to_string());
         let state: Option<c21::State> = out.lines().find(|l| l.starts_with('{')).and_then(|l| serde_json::from_str(l).ok());
         let Some(state) = state else {
+            if crash_line.is_some() && inc.crash.as_ref().map(|c| c.phase == "open").unwrap_or(false) {
+                // the injected crash ended the process while it was reopening the store: nothing was reported,
+                // nothing was executed; the next incarnation reopens what this one left behind
+                *res.stats.entry("fault.crash_during_reopen".into()).or_insert(0) += 1;
+                reopen_no += 1;
+                continue;
+            }
             res.findings.push(Finding { rule: "c21.reopen_died".into(), detail: format!("incarnation {} produced no state report (exit {:?})", i, code), facts: BTreeMap::new() });
             break;
         };
@@ -119,36 +129,57 @@ fn run_c21_plan(plan: &c21::Plan) -> Result<ChildResult, String> {
             res.findings.push(Finding { rule: "c21.open_failed".into(), detail: format!("reopen #{} failed: {}", reopen_no, e), facts: facts.clone() });
             break;
         }
-        let exp = model.expected();
         if i > 0 {
             res.nontrivial = true;
-            let mut diffs = Vec::new();
-            if state.entries != exp.entries {
-                diffs.push(format!("log entries: store has {} (first {:?}), acknowledged {} (first {:?})", state.entries.len(), state.entries.first(), exp.entries.len(), exp.entries.first()));
+            facts.insert("op_in_flight_at_crash".to_string(), serde_json::json!(pending.is_some()));
+            let diffs_of = |exp: &c21::State| -> Vec<String> {
+                let mut diffs = Vec::new();
+                if state.entries != exp.entries {
+                    diffs.push(format!("log entries: store has {} (first {:?}), acknowledged {} (first {:?})", state.entries.len(), state.entries.first(), exp.entries.len(), exp.entries.first()));
+                }
+                if state.vote != exp.vote {
+                    diffs.push(format!("vote {:?} vs acknowledged {:?}", state.vote, exp.vote));
+                }
+                if state.committed != exp.committed {
+                    diffs.push(format!("committed {:?} vs acknowledged {:?}", state.committed, exp.committed));
+                }
+                if state.last_purged != exp.last_purged {
+                    diffs.push(format!("purge point {:?} vs acknowledged {:?}", state.last_purged, exp.last_purged));
+                }
+                if state.last_log != exp.last_log && state.entries == exp.entries {
+                    diffs.push(format!("last log id {:?} vs {:?}", state.last_log, exp.last_log));
+                }
+                diffs
+            };
+            // acknowledged operations are reflected; the one in flight at an injected crash may be reflected or not
+            let cands = model.candidates(plan.seed, pending.as_ref());
+            let hit = cands.iter().position(|m| {
+                let e = m.expected();
+                diffs_of(&e).is_empty() && state.peers == e.peers
+            });
+            if let Some(h) = hit {
+                if pending.is_some() {
+                    *res.stats.entry(if h == 0 { "in_flight_op.not_reflected" } else { "in_flight_op.reflected" }.to_string()).or_insert(0) += 1;
+                }
+                model = cands[h].clone();
+            } else {
+                // report against the candidate that agrees on the address book (or the plain model)
+                let exp = cands.iter().map(|m| m.expected()).find(|e| diffs_of(e).is_empty()).unwrap_or_else(|| model.expected());
+                let diffs = diffs_of(&model.expected());
+                let log_ok = cands.iter().any(|m| diffs_of(&m.expected()).is_empty());
+                if !log_ok {
+                    let all_lost = state.entries.is_empty() && state.vote.is_none() && state.committed.is_none() && state.last_purged.is_none();
+                    facts.insert("everything_lost".to_string(), serde_json::json!(all_lost));
+                    res.findings.push(Finding { rule: "c21.log_store_state".into(), detail: format!("reopen #{} (previous incarnation ended '{}'{}): {}", reopen_no, plan.incs[i - 1].end, pending.as_ref().map(|o| format!(", crashed inside {:?}", o)).unwrap_or_default(), diffs.join("; ")), facts: facts.clone() });
+                }
+                if state.peers != exp.peers {
+                    let all_lost = state.peers.is_empty();
+                    let mut f2 = facts.clone();
+                    f2.insert("everything_lost".to_string(), serde_json::json!(all_lost));
+                    res.findings.push(Finding { rule: "c21.peer_records".into(), detail: format!("reopen #{}: address-book records {:?} vs acknowledged {:?}", reopen_no, state.peers, exp.peers), facts: f2 });
+                }
             }
-            if state.vote != exp.vote {
-                diffs.push(format!("vote {:?} vs acknowledged {:?}", state.vote, exp.vote));
-            }
-            if state.committed != exp.committed {
-                diffs.push(format!("committed {:?} vs acknowledged {:?}", state.committed, exp.committed));
-            }
-            if state.last_purged != exp.last_purged {
-                diffs.push(format!("purge point {:?} vs acknowledged {:?}", state.last_purged, exp.last_purged));
-            }
-            if state.last_log != exp.last_log && state.entries == exp.entries {
-                diffs.push(format!("last log id {:?} vs {:?}", state.last_log, exp.last_log));
-            }
-            if !diffs.is_empty() {
-                let all_lost = state.entries.is_empty() && state.vote.is_none() && state.committed.is_none() && state.last_purged.is_none();
-                facts.insert("everything_lost".to_string(), serde_json::json!(all_lost));
-                res.findings.push(Finding { rule: "c21.log_store_state".into(), detail: format!("reopen #{} (previous incarnation ended '{}'): {}", reopen_no, plan.incs[i - 1].end, diffs.join("; ")), facts: facts.clone() });
-            }
-            if state.peers != exp.peers {
-                let all_lost = state.peers.is_empty();
-                let mut f2 = facts.clone();
-                f2.insert("everything_lost".to_string(), serde_json::json!(all_lost));
-                res.findings.push(Finding { rule: "c21.peer_records".into(), detail: format!("reopen #{}: address-book records {:?} vs acknowledged {:?}", reopen_no, state.peers, exp.peers), facts: f2 });
-            }
+            pending = None;
             if !res.findings.is_empty() {
                 break;
             }
@@ -158,6 +189,15 @@ fn run_c21_plan(plan: &c21::Plan) -> Result<ChildResult, String> {
         let mut acked: BTreeSet<usize> = std::fs::read_to_string(dir.join(format!("acked.{}", i))).unwrap_or_default().lines().filter_map(|l| l.parse().ok()).collect();
         // acknowledgements also arrive on stdout (the file may be unwritable while the disk-full fault is active)
         acked.extend(out.lines().filter_map(|l| l.strip_prefix("ACK ")).filter_map(|l| l.trim().parse::<usize>().ok()));
+        if inc.crash.as_ref().map(|c| c.phase == "ops").unwrap_or(false) {
+            match crash_line.as_ref() {
+                Some(l) => {
+                    *res.stats.entry("fault.crash_inside_op".into()).or_insert(0) += 1;
+                    *res.stats.entry(format!("fault.crash_before.{}", l.split_whitespace().nth(2).unwrap_or("?"))).or_insert(0) += 1;
+                }
+                None => *res.stats.entry("fault.crash_point_not_reached".into()).or_insert(0) += 1,
+            }
+        }
         let mut disk_full = false;
         for (k, op) in inc.ops.iter().enumerate() {
             if let c21::Op::FileSizeLimit { limit } = op {
@@ -171,6 +211,10 @@ fn run_c21_plan(plan: &c21::Plan) -> Result<ChildResult, String> {
                     *res.stats.entry("acked_while_disk_full".into()).or_insert(0) += 1;
                 }
                 model.apply(plan.seed, op);
+            } else if crash_line.is_some() {
+                // the process was ended inside (or just before) this operation; the later ones never ran
+                pending = Some(op.clone());
+                break;
             } else if disk_full {
                 // the injected fault may make the operation fail; a failed operation is not acknowledged
                 *res.stats.entry("failed_while_disk_full".into()).or_insert(0) += 1;
@@ -206,7 +250,7 @@ fn rule_text(id: &str) -> &'static str {
     if id == "C20" {
         "seeded sequences of 2-60 accepted metadata commands applied in batches of 1-8 as openraft entries through the real MemStateMachine adapter over the real Metadata state machine, the entry stream not ready at a seeded subset of its polls; 1-3 build_snapshot tasks started before seeded batches race with the applies on the simulator's executor; each snapshot is installed into a fresh adapter with a fresh Metadata, whose state (read through get_topic_state / all_node_addrs, not through snapshot()) must equal a replica that applied exactly the entries 1..=last_log_id of the snapshot, and the sender's after the remaining commands; applied log ids must agree; Metadata::snapshot -> restore into a fresh instance is repeated on the same instance with a rollover in between; non-trivial = the final state was non-empty"
     } else {
-        "seeded histories of append / truncate / purge / save_vote / save_committed on the real WalLogStore over the real WriteAheadLog and vendored engine copy, plus peer-address records written and loaded through the real functions of octopii/src/openraft/node.rs (cut out by build.rs; three peers whose addresses change) on a second WriteAheadLog; 8% of the appends run with the disk full (RLIMIT_FSIZE 0, SIGXFSZ ignored) and are retried once space is back; 1-4 reopen events, each incarnation a fresh OS process ending either cleanly (drop) or killed (exit right after the last acknowledged operation); oracle: a BTreeMap model of the acknowledged operations (an operation that returned success counts, also while the disk was full) compared with get_log_state, read_vote, read_committed, try_get_log_entries(..) and the loaded address book after every reopen; non-trivial = at least one reopen was compared"
+        "seeded histories of append / truncate / purge / save_vote / save_committed on the real WalLogStore over the real WriteAheadLog and vendored engine copy, plus peer-address records written and loaded through the real functions of octopii/src/openraft/node.rs (cut out by build.rs; three peers whose addresses change) on a second WriteAheadLog; 8% of the appends run with the disk full (RLIMIT_FSIZE 0, SIGXFSZ ignored) and are retried once space is back; 1-4 reopen events, each incarnation a fresh OS process ending cleanly (drop), killed right after the last acknowledged operation, or - 30% of the working incarnations - ended by an injected process crash before the k-th intercepted I/O call of its operations (positional write, optionally torn after a seeded prefix, fsync/fdatasync, truncate, rename; the libc entry points are defined by the harness binary), and 10% of the reopening incarnations crash inside the reopen itself; 5% of the histories start with 1900-2400 records and 4% with more than 10 MiB of records (recovery replays in batches capped at 2000 records / 10 MiB); oracle: a BTreeMap model of the acknowledged operations (an operation that returned success counts, also while the disk was full) compared with get_log_state, read_vote, read_committed, try_get_log_entries(..) and the loaded address book after every reopen - the operation in flight at an injected crash may be reflected or not (an append: up to any of its entries); non-trivial = at least one reopen was compared"
     }
 }
 
